@@ -20,10 +20,11 @@ FUNCTIONS = [
     "jsonargparse._formatters.get_env_var",
 ]
 
-KINDS = ["flat", "nested", "list", "dict", "str"]
-KEY = {"flat": "a", "nested": "g.b", "list": "l", "dict": "d", "str": "s"}
-ENV = {"flat": "APP_A", "nested": "APP_G__B", "list": "APP_L", "dict": "APP_D", "str": "APP_S"}
-DEFAULT = {"flat": 1, "nested": 2, "list": [0], "dict": {"z": 0}, "str": "d0"}
+KINDS = ["flat", "nested", "list", "dict", "str", "ulist"]
+LISTY = ("list", "ulist")  # ulist: Union[int, List[int]], appended to with scalars
+KEY = {"flat": "a", "nested": "g.b", "list": "l", "dict": "d", "str": "s", "ulist": "ul"}
+ENV = {"flat": "APP_A", "nested": "APP_G__B", "list": "APP_L", "dict": "APP_D", "str": "APP_S", "ulist": "APP_UL"}
+DEFAULT = {"flat": 1, "nested": 2, "list": [0], "dict": {"z": 0}, "str": "d0", "ulist": [0]}
 ARGV_ITEMS = ["cfg1", "opt", "extra", "cfg2"]  # extra = '+' append (list) / item assignment (dict) / second plain option (flat, nested)
 ENV_MODES = ["default_env=True", "default_env=False", "JSONARGPARSE_DEFAULT_ENV"]
 METHODS = ["parse_args", "parse_env", "parse_string", "parse_object"]
@@ -41,6 +42,9 @@ def _parser(default_files, env_mode):
     p.add_argument("--l", type=List[int], default=[0])
     p.add_argument("--d", type=Dict[str, int], default={"z": 0})
     p.add_argument("--s", type=str, default="d0")
+    from typing import Union
+
+    p.add_argument("--ul", type=Union[int, List[int]], default=[0])  # a scalar member written before the list member
     return p
 
 
@@ -52,6 +56,8 @@ def _assign(kind, n, append=False, item=None):
         return "s", ("" if n == 0 else f"v{n}")  # n == 0: the empty string, a value like any other
     if kind == "list":
         return ("l+" if append else "l"), [n, n + 100]
+    if kind == "ulist":
+        return ("ul+", n) if append else ("ul", [n, n + 100])
     if item:
         return f"d.{item}", n
     return "d", {f"k{n}": n}
@@ -70,7 +76,7 @@ def fold(state, kind, op, n, item=None):
         _, val = _assign(kind, n)
         return val
     if op == "append":
-        return list(state) + [n, n + 100]
+        return list(state) + ([n] if kind == "ulist" else [n, n + 100])
     if op == "item":
         d = dict(state)
         d[item] = n
@@ -93,13 +99,13 @@ def _once(kind, bits, env_mode, method, order, ns_val):
         f2 = os.path.join(root, "pat_x.yaml")
         if bits["dflt2"]:
             with open(f2, "w") as f:
-                f.write(_yaml(kind, 12, append=(kind == "list")))
+                f.write(_yaml(kind, 12, append=(kind in LISTY)))
         files = [f1, os.path.join(root, "pat_*.yaml")]
         if bits.get("dflt1_again"):
             files.append(f1)  # the same file listed a second time, after the pattern: it is applied again, in its place
         env = {}
         if bits["envcfg"]:
-            env["APP_CFG"] = _yaml(kind, 13, append=(kind == "list" and bits.get("envcfg_append", False)))
+            env["APP_CFG"] = _yaml(kind, 13, append=(kind in LISTY and bits.get("envcfg_append", False)))
         envvar_n = 0 if (kind == "str" and bits.get("envvar_empty")) else 14
         if bits["envvar"]:
             env[ENV[kind]] = json.dumps(_assign(kind, envvar_n)[1]) if kind != "str" else _assign(kind, envvar_n)[1]
@@ -113,11 +119,11 @@ def _once(kind, bits, env_mode, method, order, ns_val):
         if bits["dflt1"]:
             exp = fold(exp, kind, "replace", 11)
         if bits["dflt2"]:
-            exp = fold(exp, kind, "append" if kind == "list" else "replace", 12)
+            exp = fold(exp, kind, "append" if kind in LISTY else "replace", 12)
         if bits.get("dflt1_again") and bits["dflt1"]:
             exp = fold(exp, kind, "replace", 11)
         if env_active and bits["envcfg"]:
-            exp = fold(exp, kind, "append" if (kind == "list" and bits.get("envcfg_append")) else "replace", 13)
+            exp = fold(exp, kind, "append" if (kind in LISTY and bits.get("envcfg_append")) else "replace", 13)
         if env_active and bits["envvar"]:
             exp = fold(exp, kind, "replace", envvar_n)
         # ---- call
@@ -134,8 +140,8 @@ def _once(kind, bits, env_mode, method, order, ns_val):
                     if not bits[it]:
                         continue
                     if it == "cfg1":
-                        argv += ["--cfg", _yaml(kind, 16, append=(kind == "list"))]
-                        exp = fold(exp, kind, "append" if kind == "list" else "replace", 16)
+                        argv += ["--cfg", _yaml(kind, 16, append=(kind in LISTY))]
+                        exp = fold(exp, kind, "append" if kind in LISTY else "replace", 16)
                     elif it == "cfg2":
                         argv += ["--cfg", _yaml(kind, 18)]
                         exp = fold(exp, kind, "replace", 18)
@@ -143,8 +149,8 @@ def _once(kind, bits, env_mode, method, order, ns_val):
                         argv += [f"--{key}={json.dumps(_assign(kind, 17)[1]) if kind != 'str' else _assign(kind, 17)[1]}"]
                         exp = fold(exp, kind, "replace", 17)
                     elif it == "extra":
-                        if kind == "list":
-                            argv += ["--l+=[19, 119]"]
+                        if kind in LISTY:
+                            argv += ["--l+=[19, 119]" if kind == "list" else "--ul+=19"]
                             exp = fold(exp, kind, "append", 19)
                         elif kind == "dict":
                             argv += ["--d.k=19"]
@@ -157,17 +163,17 @@ def _once(kind, bits, env_mode, method, order, ns_val):
                 cfg = parser.parse_env()
             elif method == "parse_string":
                 if bits["cfg1"]:
-                    text = _yaml(kind, 16, append=(kind == "list"))
-                    exp = fold(exp, kind, "append" if kind == "list" else "replace", 16)
+                    text = _yaml(kind, 16, append=(kind in LISTY))
+                    exp = fold(exp, kind, "append" if kind in LISTY else "replace", 16)
                 else:
                     text = "{}"
                 cfg = parser.parse_string(text)
             else:
                 obj = {}
                 if bits["cfg1"]:
-                    k_, v_ = _assign(kind, ns_val, append=(kind == "list"))
+                    k_, v_ = _assign(kind, ns_val, append=(kind in LISTY))
                     obj = {k_: v_} if kind != "nested" else {"g": {"b": v_}}
-                    exp = fold(exp, kind, "append" if kind == "list" else "replace", ns_val)
+                    exp = fold(exp, kind, "append" if kind in LISTY else "replace", ns_val)
                 cfg = parser.parse_object(obj)
         except ArgumentError as ex:
             return Fail("precedence:parse-failed", kind=kind, method=method, msg=str(ex)[:200])
@@ -198,7 +204,7 @@ def precedence(kind, method, env_mode, permute=False, shard=None, nshards=1, fix
             bits[n] = fixed[n] if (fixed and n in fixed) else S.flag(n)  # a shard fixes the first presence bits
         for n in ("namespace", "cfg1", "opt", "extra", "cfg2"):
             bits.setdefault(n, False)
-        if kind == "list" and bits["envcfg"]:
+        if kind in LISTY and bits["envcfg"]:
             bits["envcfg_append"] = S.flag("envcfg_append")
         if kind == "str" and bits["envvar"]:
             bits["envvar_empty"] = S.flag("envvar_empty")
